@@ -332,7 +332,7 @@ impl ReceiveChannelReliable {
         }
 
         if !self.slices.contains_key(&slice.message_id) {
-            let message_len = slice.num_slices * SLICE_SIZE;
+            let message_len = SliceConstructor::reserved_bytes(slice.num_slices);
             if self.memory_usage_bytes + message_len > self.max_memory_usage_bytes {
                 return Err(ChannelError::ReliableChannelMaxMemoryReached);
             }
@@ -351,7 +351,7 @@ impl ReceiveChannelReliable {
 
         if let Some(message) = slice_constructor.process_slice(slice.slice_index, &slice.payload)? {
             // Memory usage is re-added with the exactly message size
-            self.memory_usage_bytes -= slice.num_slices * SLICE_SIZE;
+            self.memory_usage_bytes -= SliceConstructor::reserved_bytes(slice.num_slices);
             self.process_message(message, slice.message_id)?;
             self.slices.remove(&slice.message_id);
         }
